@@ -573,7 +573,7 @@ func runCheck(spec *PropSpec, tier string, seed int, accept, verbose bool, overl
 				st := "undecided"
 				if lr.Status == "discharged" {
 					st = "discharged"
-					if lr.Ms > int64(timeout)*int64(lr.Queries)/2 {
+					if lr.Ms > int64(timeout)*int64(lr.Queries)*3/4 {
 						st = "undecided" // too slow to be stable: not admitted
 					}
 				}
